@@ -21,7 +21,7 @@ def run(tier, seed):
         n, opfrac = 2500, 0.1
     else:
         variants = [dict(N=3, maxw=2, configs="ConfigsFewFail", intr=True, spawn=True), dict(N=3, maxw=3, configs="ConfigsNoFail", intr=True),
-                    dict(N=5, maxw=3, configs="ConfigsRef", intr=True)]
+                    dict(N=4, maxw=2, configs="ConfigsNoFail", intr=True, spawn=True)]
         n, opfrac = 80000, 0.25
     runs = EC.run_engine_mc(res, variants)
     EC.mc_verdict(res, PROP, runs, ["Terminates", "CleanAtEnd", "RefinesRunAbs"])
